@@ -92,12 +92,13 @@ class error_997_visitor(error_visitor.error_visitor):
         gs_seg.append(self._echo(seg.get_value('GS02')).rstrip())
         gs_seg.append(time.strftime('%Y%m%d'))
         gs_seg.append(time.strftime('%H%M%S'))
-        gs_seg.append(self._echo(seg.get_value('GS06')))
+        # the group control number is borrowed from the input; one of its own when there is none to borrow
+        self.gs_id = self._echo(seg.get_value('GS06')) or '1'
+        gs_seg.append(self.gs_id)
         gs_seg.append(self._echo(seg.get_value('GS07')))
         gs_seg.append('004010')  # GS08 is the version/release code, not ISA12
         self._write(gs_seg)
         self.gs_seg = gs_seg
-        self.gs_id = self._echo(seg.get_value('GS06'))
         #self.gs_997_count = 0
         self.st_loop_count = 0
         self.gs_loop_count += 1
